@@ -459,6 +459,16 @@ def rule_links(ctx, px):
     rets = _returns(gs.node)
     ok = bool(rets) and all(isinstance(r, ast.Attribute) and r.attr == "_base_output_path" for r in rets)
     ctx.ob(R, m.rel, f"{gs.short} :: is the base output path", ok, "", gs.node.lineno)
+    # ... and the base output path is the constructor's argument, stored as given - not re-derived from the namespace's own folder
+    # (which has no component folders for the empty root namespace of a support-only run)
+    nscls = px.cls(NS, "Namespace")
+    init_ns = nscls.methods["__init__"]
+    base_param = _params(init_ns)[2]
+    stored = [n for n in ast.walk(init_ns.node) if isinstance(n, ast.Assign) and any(isinstance(t_, ast.Attribute) and t_.attr == "_base_output_path" for t_ in n.targets)]
+    ok = len(stored) == 1 and isinstance(stored[0].value, ast.Name) and stored[0].value.id == base_param and "_base_output_path" not in nscls.methods
+    ctx.ob(R, m.rel, "Namespace._base_output_path :: the constructor's base_output_path, stored as given", ok,
+           "" if ok else "the base path is computed (property / expression) instead of stored: for a namespace whose folder equals the base - the empty root of "
+           "`--generate-support only` - the derived value lies outside the output directory", init_ns.node.lineno)
     # traversal: generators yield own entries and recurse into every nested namespace, unconditionally
     for gname in ("Namespace._recursive_data_type_generator", "Namespace._recursive_namespace_generator", "Namespace._recursive_data_type_and_namespace_generator"):
         g = px.func(NS, gname)
